@@ -122,6 +122,9 @@ def queries(tier):
             add(T, ['pkg:%s/n?checksum=' % ty, ('hole', 'h', n)])
         add(T, ['pkg:%s/n?checksum=' % ty, ('hole', 'a', 1), ':00,', ('hole', 'b', 1), ':11'])
         add(T, ['pkg:%s/n?checksum=' % ty, ('hole', 'a', 2), ':,', ('hole', 'b', 2), ':'])
+        # algorithm names mixing ASCII and non-ASCII letters, repeated in another case
+        add(T, ['pkg:%s/n?checksum=A' % ty, ('hole', 'a', 2), ':,a', ('hole', 'b', 2), ':'])
+        add(T, ['pkg:%s/n?checksum=' % ty, ('hole', 'a', 2), 'A:,', ('hole', 'b', 2), 'a:'])
         add(T, ['pkg:%s/n?checksum=sha1:' % ty, ('hole', 'h', 3 if th else 2), ',md5:00'])
     # typed: unknown / known types in any letter case, maven namespace
     for n in lens(5 if th else 4, 1):
